@@ -304,6 +304,7 @@ fn run_worker(
     run
 }
 
+static CONFIRMED_TIMEOUTS: std::sync::atomic::AtomicUsize = std::sync::atomic::AtomicUsize::new(0);
 static HARNESS_ERRORS: Mutex<Vec<(String, u64)>> = Mutex::new(Vec::new());
 
 /// Something went wrong in the simulator itself (a worker could not be started, a job was lost):
@@ -369,7 +370,10 @@ pub fn run_chunks(chunks: Vec<Chunk>, opts: &RunOpts, scratch: &Path) -> BTreeMa
                 if let Some(t) = run.timed_out {
                     // a time-out is only believed when a second attempt, first job of a fresh
                     // worker process, runs into the limit again
-                    if timed_out_once.contains(&t) {
+                    // (once several time-outs have been confirmed in this run the machine is
+                    // not the cause, and further ones are taken at the first attempt)
+                    if timed_out_once.contains(&t) || CONFIRMED_TIMEOUTS.load(std::sync::atomic::Ordering::SeqCst) >= 6 {
+                        CONFIRMED_TIMEOUTS.fetch_add(1, std::sync::atomic::Ordering::SeqCst);
                         res.insert(t, Outcome::Timeout);
                         done.push(t);
                     } else {
